@@ -2,6 +2,7 @@ package props
 
 import (
 	"bytes"
+	"errors"
 	"fmt"
 	"regexp"
 	"strings"
@@ -240,8 +241,24 @@ func (c *OutCase) produce() (string, *saml2.SAMLServiceProvider, error) {
 		return "", sp, err
 	}
 	s, err := doc.WriteToString()
+	if err != nil {
+		return s, sp, err
+	}
+	// the caller still holds doc while further messages are built (same instance, another instance): the
+	// document it was given must stay what it was
+	other := c.SP.Build()
+	for _, b := range []*saml2.SAMLServiceProvider{sp, other} {
+		b.BuildLogoutResponseDocumentNoSig(saml2.StatusCodeSuccess, "_later")
+		b.BuildAuthRequestDocumentNoSig()
+		b.BuildLogoutRequestDocumentNoSig("later@example.com", "_later_session")
+	}
+	if s2, _ := doc.WriteToString(); s2 != s {
+		return s, sp, fmt.Errorf("%w: first %.300s now %.300s", errHeldChanged, s, s2)
+	}
 	return s, sp, err
 }
+
+var errHeldChanged = errors.New("a document returned earlier changed while later messages were built")
 
 func (c *OutCase) strings() (text []string, attr []string) {
 	sp := c.SP
@@ -492,6 +509,10 @@ func checkC15(c OutCase) h.Outcome {
 		return base
 	}
 	xml, _, err := c.produce()
+	if errors.Is(err, errHeldChanged) {
+		o.Violation = h.V("held-document-changed/"+c.Kind, "%v", err)
+		return o
+	}
 	if err != nil {
 		o.Violation = h.V("build-error", "builder failed: %v", err)
 		return o
